@@ -195,3 +195,48 @@ Proof.
     - intros y w Hy. vm_compute in Hy. contradiction. }
   vm_compute in E. discriminate.
 Qed.
+
+(* ------------------------------------------------------------------ the statement on the complement of the finding *)
+(* the document holds the constant x of column c in one of the ways the decoders have a family for *)
+Definition json_holds_decodable (c : column) (jv : jview) (x : dyn) : Prop :=
+  (exists s, x = DStr s /\ jv_string jv = Some s)
+  \/ (exists s, col_kind c = KString /\ ti_json_own (col_info c) = false /\ x = typed c (PStr s) /\ jv_string jv = Some s)
+  \/ (exists z, col_kind c = KInt64 /\ ti_json_own (col_info c) = false /\ x = typed_int c z /\ jv_i64 jv = Some z)
+  \/ (exists z, col_kind c = KUint64 /\ ti_json_own (col_info c) = false /\ x = typed_int c z /\ jv_u64 jv = Some z)
+  \/ (exists p, ti_json_own (col_info c) = true /\ x = typed c p /\ lookup (col_type c) (jv_native jv) = Some (Some p)).
+Definition yaml_holds_decodable (c : column) (yv : yview) (x : dyn) : Prop :=
+  (exists s, x = DStr s /\ yv_value yv = s)
+  \/ (exists s, col_kind c = KString /\ ti_yaml_own (col_info c) = false /\ x = typed c (PStr s) /\ yv_value yv = s)
+  \/ (exists z, col_kind c = KInt64 /\ ti_yaml_own (col_info c) = false /\ x = typed_int c z /\ yv_i64 yv = Some z)
+  \/ (exists z, col_kind c = KUint64 /\ ti_yaml_own (col_info c) = false /\ x = typed_int c z /\ yv_u64 yv = Some z)
+  \/ (exists p, ti_yaml_own (col_info c) = true /\ x = typed c p /\ lookup (col_type c) (yv_native yv) = Some (Some p)).
+
+Lemma json_partial : forall d o t, wf_defn d -> gen d o = Built t ->
+  forall c r jv, In c (t_cols t) -> col_parsable c = true -> In r (col_rows c) ->
+  json_holds_decodable c jv (cl_val (r_cell r)) ->
+  unambiguous t (json_attempts t jv) (g_z (r_owner r)) ->
+  decode_json t jv = Some (g_z (r_owner r)).
+Proof.
+  intros d o t Hwf Hg c r jv Hc Hp Hr H Hu.
+  destruct H as [[s [E V]]|[[s [K [O [E V]]]]|[[z [K [O [E V]]]]|[[z [K [O [E V]]]]|[p [O [E V]]]]]]].
+  - eapply json_plain_string; eauto.
+  - eapply json_typed_string; eauto.
+  - eapply json_int; eauto.
+  - eapply json_uint; eauto.
+  - eapply json_native; eauto.
+Qed.
+
+Lemma yaml_partial : forall d o t, wf_defn d -> gen d o = Built t ->
+  forall c r yv, In c (t_cols t) -> col_parsable c = true -> In r (col_rows c) ->
+  yaml_holds_decodable c yv (cl_val (r_cell r)) ->
+  unambiguous t (yaml_attempts_gen true t yv) (g_z (r_owner r)) ->
+  decode_yaml t yv = Some (g_z (r_owner r)).
+Proof.
+  intros d o t Hwf Hg c r yv Hc Hp Hr H Hu.
+  destruct H as [[s [E V]]|[[s [K [O [E V]]]]|[[z [K [O [E V]]]]|[[z [K [O [E V]]]]|[p [O [E V]]]]]]].
+  - eapply yaml_plain_string; eauto.
+  - eapply yaml_typed_string; eauto.
+  - eapply yaml_int; eauto.
+  - eapply yaml_uint; eauto.
+  - eapply yaml_native; eauto.
+Qed.
